@@ -1928,7 +1928,7 @@ struct TemplateCore {
         while (offset < end_offset) {
             switch (content[offset]) {
                 case QOperationSymbol::OrExp: { // ||
-                    if (content[(offset + 1)] == QOperationSymbol::OrExp) {
+                    if (((offset + 1) < end_offset) && content[(offset + 1)] == QOperationSymbol::OrExp) {
                         return QOperation::Or;
                     }
 
@@ -1936,7 +1936,7 @@ struct TemplateCore {
                 }
 
                 case QOperationSymbol::AndExp: { // &&
-                    if (content[(offset + 1)] == QOperationSymbol::AndExp) {
+                    if (((offset + 1) < end_offset) && content[(offset + 1)] == QOperationSymbol::AndExp) {
                         return QOperation::And;
                     }
 
@@ -1944,7 +1944,7 @@ struct TemplateCore {
                 }
 
                 case QOperationSymbol::GreaterExp: { // > or >=
-                    if (content[(offset + 1)] == QOperationSymbol::EqualExp) {
+                    if (((offset + 1) < end_offset) && content[(offset + 1)] == QOperationSymbol::EqualExp) {
                         return QOperation::GreaterOrEqual;
                     }
 
@@ -1952,7 +1952,7 @@ struct TemplateCore {
                 }
 
                 case QOperationSymbol::LessExp: { // < or <=
-                    if (content[(offset + 1)] == QOperationSymbol::EqualExp) {
+                    if (((offset + 1) < end_offset) && content[(offset + 1)] == QOperationSymbol::EqualExp) {
                         return QOperation::LessOrEqual;
                     }
 
@@ -1960,7 +1960,7 @@ struct TemplateCore {
                 }
 
                 case QOperationSymbol::NotExp: { // !=
-                    if (content[(offset + 1)] == QOperationSymbol::EqualExp) {
+                    if (((offset + 1) < end_offset) && content[(offset + 1)] == QOperationSymbol::EqualExp) {
                         return QOperation::NotEqual;
                     }
 
@@ -1968,7 +1968,7 @@ struct TemplateCore {
                 }
 
                 case QOperationSymbol::EqualExp: { // ==
-                    if (content[(offset + 1)] == QOperationSymbol::EqualExp) {
+                    if (((offset + 1) < end_offset) && content[(offset + 1)] == QOperationSymbol::EqualExp) {
                         return QOperation::Equal;
                     }
 
